@@ -292,7 +292,7 @@ example :
   refine ⟨by simp [SyncsNotFrom], by decide, by decide⟩
 
 /-- every handled message (Sync incl. the jump filter and the sender stamp, Suspect, Alive,
-    add_peer) leaves the manager's Lamport clock and every recorded incarnation non-decreasing -/
+    PingAck, add_peer) leaves the manager's Lamport clock and every recorded incarnation non-decreasing -/
 theorem mgr_clock_monotone (g : Mgr) (x : Msg) : g.st.clock ≤ (g.handle x).st.clock := by
   cases x with
   | sync s b t =>
@@ -320,6 +320,11 @@ theorem mgr_clock_monotone (g : Mgr) (x : Msg) : g.st.clock ≤ (g.handle x).st.
       simp only []
       refine Nat.le_trans ?_ (clock_monotone _ (.merge _))
       simp
+  | pingAck t ok =>
+    simp only [Mgr.handle]
+    cases handlePingAck_st g t ok with
+    | inl h => rw [h]; exact Nat.le_refl _
+    | inr h => rw [h]; exact clock_monotone g.st (.markHealthy t)
 
 theorem mgr_inc_monotone (g : Mgr) (x : Msg) (m : Nat) (e : Reg) (h : g.st.regs m = some e) :
     ∃ e', (g.handle x).st.regs m = some e' ∧ e.inc ≤ e'.inc := by
@@ -349,6 +354,11 @@ theorem mgr_inc_monotone (g : Mgr) (x : Msg) (m : Nat) (e : Reg) (h : g.st.regs 
     | none =>
       simp only []
       exact inc_monotone { g.st with clock := g.st.clock + 1 } (.merge _) trivial m e h
+  | pingAck t ok =>
+    simp only [Mgr.handle]
+    cases handlePingAck_st g t ok with
+    | inl h' => rw [h']; exact ⟨e, h, Nat.le_refl _⟩
+    | inr h' => rw [h']; exact inc_monotone g.st (.markHealthy t) trivial m e h
 
 /-! ## 8. the defect the fix removed -/
 
